@@ -9,6 +9,7 @@ import (
 	"strconv"
 	"strings"
 	"sync"
+	"sync/atomic"
 	"time"
 
 	"github.com/samaritan-proxy/samaritan/host"
@@ -377,9 +378,11 @@ func (c c09child) Exec(op string) string {
 //
 //	-> stop=<ok|hangs> up=<closed>/<accepted> leaked=<goroutines>   (measured up to 2.5 s after Stop was called)
 func (c09child) redir(mode string) string {
-	if mode != "k" && mode != "d" && mode != "n" && mode != "h" {
+	if mode != "k" && mode != "d" && mode != "n" && mode != "h" && mode != "f" && mode != "g" {
 		return "bad-op"
 	}
+	full := mode == "f" || mode == "g"
+	var bGot int32
 	baseG := runtime.NumGoroutine()
 	var mu sync.Mutex
 	accepted, closed := 0, 0
@@ -404,7 +407,11 @@ func (c09child) redir(mode string) string {
 			if len(v.Array) > 0 {
 				cmd = strings.ToLower(string(v.Array[0].Text))
 			}
-			if _, err := c.Write([]byte(reply(cmd))); err != nil {
+			rep := reply(cmd)
+			if rep == "" {
+				continue // reads, never answers
+			}
+			if _, err := c.Write([]byte(rep)); err != nil {
 				return
 			}
 		}
@@ -453,6 +460,10 @@ func (c09child) redir(mode string) string {
 		bDelay = 200 * time.Millisecond
 	}
 	replyB := func(cmd string) string {
+		if full {
+			atomic.AddInt32(&bGot, 1)
+			return ""
+		}
 		if cmd == "get" {
 			return "$1\r\nv\r\n"
 		}
@@ -464,7 +475,7 @@ func (c09child) redir(mode string) string {
 	reached, release := make(chan struct{}), make(chan struct{})
 	var once sync.Once
 	redis.VerifSetPause(func(point string, obj interface{}) {
-		if point != "upstream.request.checked" {
+		if point != "upstream.request.checked" || full {
 			return
 		}
 		if mode == "h" {
@@ -532,6 +543,63 @@ func (c09child) redir(mode string) string {
 		return "sockerr"
 	}
 	defer cl.C.Close()
+	if full {
+		// one MGET of 2100 keys: 2100 GETs to A, each answered MOVED to B, which reads and never answers. With 2049 of them
+		// outstanding on B's connection (its two queues and the one in its writer's hand) the read loop of A's connection waits
+		// in B's Send.  f: Stop;  g: node A is removed from the service first.
+		args := [][]byte{[]byte("mget")}
+		for i := 0; i < 2100; i++ {
+			args = append(args, []byte(fmt.Sprintf("k%d", i)))
+		}
+		if err := cl.Write(args...); err != nil {
+			p.Stop()
+			return "sockerr"
+		}
+		// (B sees about a thousand of them: its connection's writer stops once 1024 requests wait for answers)
+		for i := 0; i < 300 && atomic.LoadInt32(&bGot) < 900; i++ {
+			time.Sleep(10 * time.Millisecond)
+		}
+		time.Sleep(250 * time.Millisecond)
+		if atomic.LoadInt32(&bGot) < 900 {
+			p.Stop()
+			return fmt.Sprintf("not-parked(b-received=%d)", atomic.LoadInt32(&bGot))
+		}
+		res := "ok"
+		if mode == "g" {
+			rmDone := make(chan struct{})
+			go func() { p.OnSvcHostRemove([]*host.Host{host.New(lnA.Addr().String())}); close(rmDone) }()
+			select {
+			case <-rmDone:
+			case <-time.After(2500 * time.Millisecond):
+				res = "hangs"
+			}
+		}
+		stopDone := make(chan struct{})
+		go func() { p.Stop(); close(stopDone) }()
+		select {
+		case <-stopDone:
+		case <-time.After(2500 * time.Millisecond):
+			res = "hangs"
+		}
+		cl.C.Close()
+		leaked := 0
+		for i := 0; i < 150; i++ {
+			mu.Lock()
+			a, c := accepted, closed
+			mu.Unlock()
+			leaked = runtime.NumGoroutine() - baseG - 2
+			if a == c && leaked <= 0 {
+				break
+			}
+			time.Sleep(10 * time.Millisecond)
+		}
+		if leaked < 0 {
+			leaked = 0
+		}
+		mu.Lock()
+		defer mu.Unlock()
+		return fmt.Sprintf("stop=%s up=%d/%d leaked=%d", res, closed, accepted, leaked)
+	}
 	if err := cl.Write([]byte("get"), []byte("k")); err != nil {
 		p.Stop()
 		return "sockerr"
@@ -700,6 +768,9 @@ func (c *c09) Gen(r *hx.Run) {
 	for i := 0; i < r.N(2, 10); i++ {
 		for _, m := range []string{"k", "n", "d", "h"} {
 			r.Do("c09.redir "+m, true, "redir")
+		}
+		for _, m := range []string{"f", "g"} {
+			r.Do("c09.redir "+m, true, "redir-full-queue")
 		}
 	}
 	// bursts: many clients at the same moment against a connection limit
